@@ -607,6 +607,33 @@ def interface_order_family():
     return hs
 
 
+def unguessable_names(ctx, impl):
+    """'unguessable registered name' as a peer-side attack on the REAL name generator (the histories above replace it by a
+    counter): observe the names of 126 legitimately granted objects, try to recover the state of the stdlib Mersenne Twister
+    from them (624 words; the surplus words validate the recovery), predict the name of an object registered afterwards and
+    told to nobody, and look it up."""
+    r = impl.swissnum_attack(126)
+    ctx.extra["swissnum_attack"] = {k: r.get(k) for k in ("names", "layout", "validated", "resolved", "opened")}
+    ctx.case(["swissnum-attack", r["names"]], nontrivial=r["names"] >= 126)
+    ctx.hist("swissnum_attack", "resolved" if r["resolved"] else "lookup-refused")
+    if r["names"] < 126:
+        ctx.fail("swissnum-attack-not-run", "only %d names could be observed (the first send of an object no longer carries its URL?)"
+                 % r["names"], has_input=False)
+    if r["resolved"]:
+        ctx.fail("oracle/swissnum-predicted",
+                 "after being given %d objects the peer recovered the name generator's state (%s, %d further words reproduced), "
+                 "computed the name %r of an object that was registered afterwards and told to nobody, getReferenceByName "
+                 "resolved it%s" % (r["names"], r["layout"], r["validated"], r["guess"],
+                                    " and remote_open ran on it" if r["opened"] else ""),
+                 replay=dict(observed_names=r["names"], layout=r["layout"], predicted_name=r["guess"], opened=r["opened"]))
+    same, name = impl.swissnum_follows_stdlib_prng()
+    ctx.extra["swissnum_function_of_stdlib_prng_state"] = same
+    if same:
+        ctx.fail("oracle/swissnum-follows-stdlib-prng",
+                 "two names drawn after random.setstate(<the same state>) are equal (%r): the Tub's names are a function of the "
+                 "process-wide, non-cryptographic `random` generator" % name, replay=dict(name=name))
+
+
 REDECLARE_SIG = "oracle/interface-redeclared-after-use-ignored"
 
 
@@ -671,7 +698,8 @@ def run(ctx):
         "application methods return plain data; a grant is the application calling a peer object with the Referenceable as argument",
         "their-reference (gifts) and my-reference arguments are not generated: they create outbound state, not entries into local code",
         "Tub.generateSwissnumber is replaced per Tub instance by a counter so that model and implementation can be compared; "
-        "unguessability itself is the translated constant NAMEBITS = 160 bits from os.urandom (C06_swissnum_bits)",
+        "unguessability: translated facts NAMEBITS = 160 and 'the name is base32 of os.urandom(bits//8)' (C06_swissnum_bits), plus a "
+        "peer-side prediction attack on the real generator (MT19937 state recovery from 126 observed names) that must fail",
     ]
     ok, log = ctx.coq_build(["props/C06.vo"])
     from harness import c06_impl as impl
@@ -737,6 +765,7 @@ def run(ctx):
             correspond(ctx, impl, hists[k:k + shard], "cases_%d" % (k // shard))
         correspond_decref(ctx)
     redeclare_probe(ctx, impl)
+    unguessable_names(ctx, impl)
     if not ok and len(ctx.failures) == before:
         ctx.fail("proof-broken", "theorem closure props/C06.vo no longer builds against the regenerated gen/ReachGen.v:\n" + log[-2500:],
                  replay=dict(log=log[-6000:]), has_input=False)
